@@ -105,6 +105,8 @@ func (s *MemStorage) Health(ctx *Context) error {
 //
 // Just used for testing.
 func (s *MemStorage) State(ctx *Context) map[string]map[string]string {
+	s.Lock()
+	defer s.Unlock()
 	return s.locToPairs
 }
 
